@@ -135,6 +135,16 @@ func TestC05(t *testing.T) {
 	r := vr.New(t, "C05", "fault_enumeration")
 	defer r.Finish()
 	if raw := vr.ReplayCase(); raw != nil {
+		var oc c05orderCase
+		if json.Unmarshal(raw, &oc) == nil && oc.Leg == "prefix-order" {
+			what := replayOrderC05(oc)
+			t.Logf("replay %+v verdict %q", oc, what)
+			r.Case(vr.J(oc), true)
+			if what != "" {
+				r.Violate(vr.J(oc), what, oc, nil)
+			}
+			return
+		}
 		var c c05case
 		json.Unmarshal(raw, &c)
 		a, x, y, m := parse(c.Ancestor), parse(c.Alpha), parse(c.Beta), modeByName(c.Mode)
@@ -237,6 +247,7 @@ func TestC05(t *testing.T) {
 		_ = skipped
 	})
 	r.Sample(c05case{Triple: Triple{u.Name, "D{a:D{x:F1}}", "D{a:D{x:F1},b:F2}", "D{}", "two-way-safe"}, Results: []string{"D{}", "F2"}})
+	prefixOrderLegC05(r)
 }
 
 // ---- C07: Diff / Apply / Copy / filter / Count consistency ----
